@@ -102,6 +102,7 @@ type seqState struct {
 	ids, hashes, secrets, others interner
 	created                      []made // swaps created so far (in this sequence), for claim/refund targets
 	limStable                    bool
+	pendingClaim                 []byte // raw id of a swap to claim next with the right secret (set by genSetLimit)
 }
 
 type made struct {
@@ -460,6 +461,8 @@ func (w *world) genCreate(r *c.Rng, st *seqState, o obs) *opDesc {
 			}
 			variant = "duplicate"
 		}
+	case 8: // a user swapping with itself
+		sender, recipient, variant = 3, 3, "self"
 	case 7: // the other asset's deputy (or a user) acting as deputy of this asset
 		sender, variant = 1+(dep%2), "other-deputy"
 		recipient = 3
@@ -545,9 +548,20 @@ func (w *world) genClaim(r *c.Rng, st *seqState, o obs) *opDesc {
 	k := w.tApp.GetBep3Keeper()
 	from := r.Intn(6)
 	target := pickSwap(r, o, int(types.SWAP_STATUS_OPEN))
+	forced := false
+	if st.pendingClaim != nil {
+		for i := range o.swaps {
+			if bytes.Equal(o.swaps[i].rawID, st.pendingClaim) {
+				target, forced = &o.swaps[i], true
+			}
+		}
+		st.pendingClaim = nil
+	}
 	var id, rn []byte
 	variant := "right"
-	if target == nil || r.Chance(6) {
+	if forced {
+		id, rn, variant = target.rawID, st.secretOf(target.rawID), "right-after-setlimit"
+	} else if target == nil || r.Chance(6) {
 		id, rn, variant, target = randBytes(r, 32), randBytes(r, 32), "unknown-id", nil
 	} else {
 		id = target.rawID
@@ -668,17 +682,33 @@ func (w *world) genBegin(r *c.Rng, o obs) (dh int64, dt int64, tag string) {
 	return
 }
 
-func (w *world) genSetLimit(r *c.Rng, o obs) *opDesc {
+func (w *world) genSetLimit(r *c.Rng, st *seqState, o obs) *opDesc {
 	k := w.tApp.GetBep3Keeper()
 	d := r.Intn(nAssets)
 	a, sup := w.assetOf(o, d)
 	cur, inc, tl := i64(sup.CurrentSupply.Amount), i64(sup.IncomingSupply.Amount), i64(sup.TimeLimitedCurrentSupply.Amount)
 	old := i64(a.SupplyLimit.Limit)
-	limit := c.Pick(r, []int64{cur + inc - 1, cur + inc, cur + inc + 1, cur, cur - 1, old * 2, old + 100, old / 2, 0})
+	lims := []int64{cur + inc - 1, cur + inc, cur + inc + 1, cur, cur - 1, old * 2, old + 100, old / 2, 0}
+	tbls := []int64{-1, -2, tl + inc, tl + inc - 1, tl, 0} // -1: the new limit, -2: half of it
+	// the claim-time checks compare current (+ amount) and time-limited current (+ amount) of one open
+	// incoming swap with the limits in force: put the new limits exactly on and just below those sums
+	for _, sw := range o.swaps {
+		if sw.denom == d && sw.dir == int(types.SWAP_DIRECTION_INCOMING) && sw.status == int(types.SWAP_STATUS_OPEN) {
+			amt, _ := strconv.ParseInt(sw.amt, 10, 64)
+			lims = append(lims, cur+amt, cur+amt-1)
+			tbls = append(tbls, tl+amt, tl+amt-1)
+		}
+	}
+	limit := c.Pick(r, lims)
 	if limit < 0 {
 		limit = 0
 	}
-	tbl := c.Pick(r, []int64{limit, limit / 2, tl + inc, tl + inc - 1, tl, 0})
+	tbl := c.Pick(r, tbls)
+	if tbl == -1 {
+		tbl = limit
+	} else if tbl == -2 {
+		tbl = limit / 2
+	}
 	if tbl < 0 {
 		tbl = 0
 	}
@@ -693,6 +723,37 @@ func (w *world) genSetLimit(r *c.Rng, o obs) *opDesc {
 	a.SupplyLimit.TimePeriod = time.Duration(c.Pick(r, []int64{10e9, 60e9, 3600e9}))
 	if r.Chance(25) {
 		a.Active = !a.Active
+	}
+	// targeted: put one of the two claim-time checks of an open incoming swap exactly on / one below its
+	// boundary and claim that swap next
+	var open []swapObs
+	for _, sw := range o.swaps {
+		if sw.denom == d && sw.dir == int(types.SWAP_DIRECTION_INCOMING) && sw.status == int(types.SWAP_STATUS_OPEN) {
+			open = append(open, sw)
+		}
+	}
+	if len(open) > 0 && r.Chance(55) {
+		sw := c.Pick(r, open)
+		amt, _ := strconv.ParseInt(sw.amt, 10, 64)
+		off := r.Range(-1, 0)
+		if r.Bool() { // the supply-limit check of IncrementCurrentAssetSupply
+			limit = cur + amt + off
+			if tbl > limit {
+				tbl = limit
+			}
+		} else { // its time-based check
+			tbl = tl + amt + off
+			if limit < tbl || limit < cur+amt {
+				limit = maxI(tbl, cur+amt)
+			}
+			a.SupplyLimit.TimeLimited = true
+		}
+		if limit >= 0 && tbl >= 0 {
+			a.SupplyLimit.Limit = sdkmath.NewInt(limit)
+			a.SupplyLimit.TimeBasedLimit = sdkmath.NewInt(tbl)
+			a.Active = true
+			st.pendingClaim = sw.rawID
+		}
 	}
 	cmp := "raise"
 	if limit < old {
@@ -722,7 +783,11 @@ func (w *world) seq(out *c.Out, seq int, r *c.Rng) {
 	st := &seqState{limStable: true}
 	w.randomParams(r, ctx)
 	cfg := fmt.Sprintf("0;%s;%s", bools(w.macc), bools(w.blocked))
-	nops := c.Budget(70, 200)
+	// wiring facts the theorems assume (hcfg): the bep3 module account is a keeper Macc and blocked in x/bank
+	if !w.macc[0] || !w.blocked[0] {
+		out.Violation("wiring: the bep3 module account is not in keeper.Maccs / not blocked in x/bank")
+	}
+	nops := c.Budget(70, 150)
 	emit := func(d *opDesc, pre obs, cls kapp.Class, post obs, extra string) {
 		out.Case(d.sig+"|"+string(cls)+extra, "c13.op", d.kind, cfg, w.enc(pre), d.args, d.hashes, c.B(st.limStable), "=>", string(cls), w.enc(post))
 	}
@@ -762,6 +827,8 @@ func (w *world) seq(out *c.Out, seq int, r *c.Rng) {
 				sig: fmt.Sprintf("begin|%s|exp=%v|del=%v|reset=%d", tag, exp > 0, del > 0, reset)}
 			emit(d, pre, kapp.OK, post, "")
 			continue
+		case st.pendingClaim != nil:
+			d = w.genClaim(r, st, pre)
 		case x < 52 || (len(pre.swaps) == 0 && x < 95 && r.Chance(90)):
 			d = w.genCreate(r, st, pre)
 		case x < 78:
@@ -769,7 +836,7 @@ func (w *world) seq(out *c.Out, seq int, r *c.Rng) {
 		case x < 95:
 			d = w.genRefund(r, st, pre)
 		default:
-			d = w.genSetLimit(r, pre)
+			d = w.genSetLimit(r, st, pre)
 		}
 		if d == nil {
 			out.Note("skipped:not-reachable")
@@ -808,6 +875,6 @@ func main() {
 	out := c.NewOut(c.OutPath())
 	defer out.Close()
 	r := c.NewRng(c.Seed())
-	n := c.Budget(240, 6000)
+	n := c.Budget(600, 5000)
 	kapp.RunSeqs(n, c.Workers(), r, mkWorld, func(w *world, seq int, r *c.Rng) { w.seq(out, seq, r) })
 }
